@@ -311,6 +311,34 @@ class FakeFile:
         self.close()
 
 
+class DuckFile:
+    """a seekable stream object that offers only read / seek / tell (no seekable() / readable() methods), like
+    hand-written wrappers: s3transfer.compat.seekable() has to probe it"""
+
+    def __init__(self, size, pos=0, env=None):
+        self._f = FakeFile(size, pos, env, 'src')
+
+    def read(self, amt=None):
+        return self._f.read(amt)
+
+    def seek(self, where, whence=0):
+        return self._f.seek(where, whence)
+
+    def tell(self):
+        return self._f.tell()
+
+    def close(self):
+        self._f.close()
+
+    @property
+    def reads(self):
+        return self._f.reads
+
+    @property
+    def pos(self):
+        return self._f.pos
+
+
 class NonSeekableSource:
     """readable, not seekable (no seek/tell attributes at all)"""
 
